@@ -65,6 +65,8 @@ def mk(desc):
     t = build_tree(shape, lengths=(lambda i, leaf: ls[i]) if ls is not None else None, rooted=desc.get("rooted"))
     if ls is not None and ls[0] is not None:
         t._seed_node._edge.length = ls[0]
+    for k in range(desc.get("extra_taxa") or 0):
+        t.taxon_namespace.new_taxon("unused%d" % k)   # the namespace may hold taxa that are not on the tree
     return t
 
 
@@ -840,6 +842,9 @@ def gen_items(ctx):
             for norm in STAT_NORMS[stat]:
                 if stat == "colless" and norm in ("max", True, "default") and nl < 3:
                     continue
+                if nl >= 2:
+                    # the statistic is one of the TREE: taxa of the namespace that are not on it do not count
+                    items.append((sc, "stat", dict(d, extra_taxa=2), dict(stat=stat, norm=norm, via="fn", order="id")))
                 for via in ("fn", "method"):
                     for order in ("id", "rev", "rot"):
                         if via == "method" and order == "rot":
@@ -864,6 +869,12 @@ def gen_items(ctx):
                     for via in ("fn", "method"):
                         for order in ("id", "rev", "rot"):
                             items.append((sc, "stat", d2, dict(stat="treeness", via=via, order=order)))
+                    # ... and with a length on the seed node's own edge, which is no branch of the tree
+                    ls3 = list(ls2)
+                    ls3[0] = 0.75
+                    d3 = desc_of(s, ls3, _rooted(si))
+                    for via in ("fn", "method"):
+                        items.append((sc, "stat", d3, dict(stat="treeness", via=via, order="id")))
     for n in range(3, N + 1):
         for si, s in enumerate(binary_shapes(n)):
             for pat in ("unit", "dyadic", "zeros"):
